@@ -42,8 +42,20 @@ def _inf_sign(c):
 
 
 # ---------------------------------------------------------------------------------------------------------------- lexer
+class _Toks(list):
+    """token list; .orig maps the position of a bare word to its original spelling (bare identifiers keep their case)"""
+
+    def __init__(self):
+        list.__init__(self)
+        self.orig = {}
+
+
+RESERVED = {"SELECT", "FROM", "WHERE", "GROUP", "BY", "ORDER", "LIMIT", "AS", "AND", "OR", "NOT", "CASE", "WHEN", "THEN", "ELSE", "END", "IN", "IS", "JOIN", "LEFT", "RIGHT",
+            "FULL", "INNER", "CROSS", "ON", "UNION", "ALL", "WITH", "OVER", "PARTITION", "DESC", "ASC", "CAST", "DISTINCT", "TABLE", "INDEX", "INTO", "VALUES", "SET", "HAVING"}
+
+
 def lex(sql, dialect="sqlite"):
-    out = []
+    out = _Toks()
     i, n = 0, len(sql)
     idq = '"'
     while i < n:
@@ -96,6 +108,7 @@ def lex(sql, dialect="sqlite"):
             continue
         m = re.compile(r"[A-Za-z_][A-Za-z_0-9]*").match(sql, i)
         if m:
+            out.orig[len(out)] = m.group(0)
             out.append(("KW", m.group(0).upper()))
             i = m.end()
             continue
@@ -405,9 +418,18 @@ class Parser:
                     ty += " " + self.eat("KW")[1]
                 self.eat("OP", ")")
                 return ("cast", e, ty)
+            pos = self.i
             name = self.eat()[1]
             if not self.at("OP", "("):
-                raise SQLParseError(f"bare keyword {name} in expression")
+                if name in RESERVED:
+                    raise SQLExecError(f'near "{name}": syntax error')  # the engines reject a reserved word used as a bare identifier
+                # an unquoted identifier: the engines fold/resolve it as a column name (SQLite: case-insensitively)
+                orig = getattr(self.t, "orig", {}).get(pos, name)
+                if self.at("OP", "."):
+                    self.eat()
+                    c = self.eat("ID")[1]
+                    return ("col", orig, c)
+                return ("col", None, orig)
             self.eat("OP", "(")
             args = []
             distinct = False
